@@ -161,6 +161,7 @@ def schedule_facts(f):
 def rule_B(ck, units):
     ck.rule('B.schedule-covers-reads', 'level-scheduled kernels: every unknown x[c] a row kernel reads (c != i) belongs to a row whose level is ordered against the row\'s own level '
                                        'by the schedule constructor', 2)
+    ck.rule('C.all-levels-scheduled', 'level-scheduled kernels: the constructor creates one task per thread for every level 0 .. nlev-1 (the loop over the levels starts at 0 and is bounded by the level count)', 2)
     ck.rule('C.barrier', 'level-scheduled sweeps: an unconditional `omp barrier` closes every task of the per-thread task loop, and every thread gets one task per level', 2)
     done = set()
     for u in units.values():
@@ -184,6 +185,12 @@ def rule_B(ck, units):
                 done.add(key)
                 ok, det = ilu_schedule(f, lower)
                 ck.ob('B.schedule-covers-reads', key, f.where(), ok, det)
+            if cls in ('amgcl::relaxation::gauss_seidel::parallel_sweep', 'amgcl::relaxation::detail::ilu_solve::sptr_solve') and f.j.get('ctor'):
+                key = '%s|%s' % (cls, 'T' if '<true>' in (f.clsfull or '') else 'F')
+                if ('lv', key) not in done:
+                    done.add(('lv', key))
+                    ok, det = all_levels_scheduled(f)
+                    ck.ob('C.all-levels-scheduled', key, f.where(), ok, det)
             # --- barrier discipline in the sweeps
             if (cls == 'amgcl::relaxation::gauss_seidel::parallel_sweep' and f.q.endswith('::sweep')) or \
                (cls == 'amgcl::relaxation::detail::ilu_solve::sptr_solve' and f.q.endswith('::solve')):
@@ -193,6 +200,35 @@ def rule_B(ck, units):
                 done.add(key)
                 ok, det = barrier_ok(f)
                 ck.ob('C.barrier', key, f.where(), ok, det)
+
+
+def all_levels_scheduled(f):
+    """the loop that creates the per-thread tasks runs over every level 0 .. nlev-1 (a row of a skipped level is never swept)"""
+    pushes = [c for c in f.calls() if c.get('m') == 'push_back' and c.get('obj') is not None and 'tasks[' in show(c['obj'])]
+    if not pushes:
+        return False, 'no per-thread task list is filled'
+    for c in pushes:
+        loops = [a for a in f.ancestors(c) if a['k'] == 'for']
+        if not loops:
+            return False, 'tasks are not created in a loop over the levels'
+        L = loops[0]
+        init = L.get('init')
+        iv, start = None, None
+        for x in walk(init or {'k': 'x', 'i': -1}):
+            if x['k'] == 'decl':
+                for v in x['v']:
+                    iv, start = v['d'], unwrap(v.get('init')) if v.get('init') is not None else None
+        cond = unwrap(L.get('c')) if L.get('c') is not None else None
+        if iv is None or start is None or start['k'] != 'lit' or start.get('v') != '0':
+            return False, 'the loop over the levels at %s starts at `%s`, not at level 0: the rows of the skipped levels are never processed' % (f.where(L), show(start) if start is not None else '?')
+        if cond is None or cond['k'] != 'bin' or cond['op'] != '<' or unwrap(cond['x']).get('d') != iv:
+            return False, 'the loop over the levels at %s is not `lev < <number of levels>`' % f.where(L)
+        bound = unwrap(cond['y'])
+        nlev_defs = [n for n in f.nodes.values() if n['k'] == 'bin' and n['op'] == '=' and bound['k'] == 'ref' and unwrap(n['x'])['k'] == 'ref' and unwrap(n['x'])['d'] == bound['d']
+                     and any(x['k'] == 'call' and x.get('f') == 'std::max' for x in walk(n['y']))]
+        if bound['k'] != 'ref' or not nlev_defs:
+            return False, 'the bound `%s` of the loop over the levels at %s is not the level count (running maximum of level + 1)' % (show(bound), f.where(L))
+    return True, ''
 
 
 def row_loop(f):
